@@ -35,6 +35,13 @@ CLAIMED["C10"] = (
     "DESIGN.md §3 C10",
 )
 
+CLAIMED["C05"] = (
+    "ast rules: reaching-definition pairing of the rotation-block entries in geometry/transform.py, annotation-typed spatial-attribute coverage of all 21 translate_rotate methods, argument pass-through, protocol completeness over typed receivers, assignability of the attributes State.translate_rotate writes in every State subclass",
+    "Decides necessary structure of exactness and totality: the 2x2 block is (cos a, -sin a; sin a, cos a) of the angle parameter on every branch (no approximation branch); every spatial attribute of every class with a translate_rotate is moved (reasoned exception table for local-frame and derived attributes); nested calls receive (translation, angle) unmodified; every class in the Scenario.obstacles union and every other typed receiver defines translate_rotate; State.translate_rotate only assigns stored attributes and classes with a derived heading rotate its dependencies; orientation sums are normalised. Rounding accuracy and invertibility as numbers are not decided.",
+    "Trusts annotations for what is spatial, the exception table (20 rows with reasons) and numpy/math semantics.",
+    "DESIGN.md §3 C05",
+)
+
 NOT_APPLICABLE = {
     "C17": "modular arithmetic over runtime integers (%, cumsum, argmax): no sound static argument in reach; the only structural part (memo freshness) is decided under C11, and 'TrafficLight delegates to its cycle' is sufficient but not necessary, so a rule on it would fire on behaviour-preserving edits",
 }
